@@ -48,4 +48,7 @@ package masking
 //@   props C11 C14
 //@   safety
 //@   ensures pattern-when-undecryptable: called(EncryptionSettingFromContext) && ret(EncryptionSettingFromContext)[1] && ret(ColumnEncryptionSetting.GetMaskingPattern#0)[0] != "" && ret(ExtendedDataProcessor.Process#0)[1] != nil ==> err == nil && fresh(out) && len(out) == len(ret(ColumnEncryptionSetting.GetMaskingPattern#1)[0])
+//@   ensures decrypted-value-returned: called(EncryptionSettingFromContext) && ret(EncryptionSettingFromContext)[1] && ret(ColumnEncryptionSetting.GetMaskingPattern#0)[0] != "" && ret(ExtendedDataProcessor.Process#0)[1] == nil && !eqcontent(ret(ExtendedDataProcessor.Process#0)[0], data) ==> err == nil && sameslice(out, ret(ExtendedDataProcessor.Process#0)[0])
+//@   ensures pattern-when-unchanged: called(EncryptionSettingFromContext) && ret(EncryptionSettingFromContext)[1] && ret(ColumnEncryptionSetting.GetMaskingPattern#0)[0] != "" && ret(ExtendedDataProcessor.Process#0)[1] == nil && eqcontent(ret(ExtendedDataProcessor.Process#0)[0], data) ==> err == nil && fresh(out) && len(out) == len(ret(ColumnEncryptionSetting.GetMaskingPattern#1)[0])
+//@   ensures no-masking-setting-passes-through: called(EncryptionSettingFromContext) && !(ret(EncryptionSettingFromContext)[1] && ret(ColumnEncryptionSetting.GetMaskingPattern#0)[0] != "") ==> sameslice(out, ret(ExtendedDataProcessor.Process#1)[0]) && err == ret(ExtendedDataProcessor.Process#1)[1]
 //@   at call ExtendedDataProcessor.Process : assert sameslice(arg[0], data) && arg[1] == context
